@@ -3,9 +3,13 @@
    does not change the build, for the directives the pipeline model has.
    [to_pdirs] projects a kustomization record of Edit/Kust.v onto the pipeline's directive syntax
    (namespace, namePrefix, nameSuffix, labels, commonLabels, commonAnnotations, literal-only
-   configMap/secret generators, generatorOptions); records using anything else are outside the domain. *)
+   configMap/secret generators, generatorOptions, replicas, images and — through a loader parameter, since
+   Edit/Kust.v keeps patch texts opaque — strategic-merge `patches:` entries); records using anything else
+   are outside the domain.  The deprecated patchesStrategicMerge / patchesJson6902 have no transformer in the
+   pipeline model: they must be empty (see C19_fix_patch_spelling_refuted for why that guard is needed). *)
 From KV Require Import Edit.Cmd Edit.FixCmd Edit.FixProofs.
 From KV Require Import Res.Pipeline Res.PipelineProofs.
+From KV Require Res.PipelinePatchProofs Res.Replica Res.Image.
 Local Open Scope list_scope.
 
 Definition to_label_dir (l : label) : option Labels.label_dir :=
@@ -37,22 +41,35 @@ Definition to_pgopts (g : option genopts) : option (option pgopts) :=
               else Some (Some (mkPGopts (mapo_or_empty (Kust.go_labels o)) (mapo_or_empty (Kust.go_annotations o)) (go_disableHash o)))
   end.
 
-(* the record uses only directives the pipeline model has (resources / bases are the tree's entries) *)
+(* the record uses only directives the pipeline model has (resources / bases are the tree's entries).
+   imageTags is empty on every loaded record (FixKustomization). *)
 Definition only_pipe_directives (k : kust) : bool :=
-  nilb (k_patchesSM k) && nilb (k_patchesJson k) && nilb (k_patches k) &&
-  nilb (k_images k) && nilb (k_imageTags k) && nilb (k_replicas k) && nilb (k_components k) &&
+  nilb (k_patchesSM k) && nilb (k_patchesJson k) &&
+  nilb (k_imageTags k) && nilb (k_components k) &&
   nilb (k_generators k) && nilb (k_transformers k) && nilb (k_buildMetadata k) && nilb (k_other k).
 
-Definition to_pdirs (k : kust) : option pdirs :=
-  if only_pipe_directives k then
-    match opt_all to_label_dir (k_labels k), opt_all to_pgen (k_configMapGenerator k),
-          opt_all to_pgen (k_secretGenerator k), to_pgopts (k_generatorOptions k) with
-    | Some ls, Some cms, Some secs, Some go =>
-        Some (mkPDirsG (k_namespace k) (k_namePrefix k) (k_nameSuffix k) ls
-                       (mapo_or_empty (k_commonLabels k)) (mapo_or_empty (k_commonAnnotations k)) cms secs go)
-    | _, _, _, _ => None
-    end
-  else None.
+Definition to_pimage (i : Kust.image) : Image.image :=
+  Image.mkImage (i_name i) (i_newName i) (i_tagSuffix i) (i_newTag i) (i_digest i).
+
+Section Project.
+  (* the patch loader: path / inline text -> documents, target -> selector, observed schema projection;
+     None for what the pipeline model does not have (JSON6902 texts, options) *)
+  Variable L : patch -> option ppatch.
+  (* strconv.FormatInt(count, 10) *)
+  Variable F : Z -> string.
+
+  Definition to_pdirs (k : kust) : option pdirs :=
+    if only_pipe_directives k then
+      match opt_all to_label_dir (k_labels k), opt_all to_pgen (k_configMapGenerator k),
+            opt_all to_pgen (k_secretGenerator k), to_pgopts (k_generatorOptions k), opt_all L (k_patches k) with
+      | Some ls, Some cms, Some secs, Some go, Some ps =>
+          Some (mkPDirsP (k_namespace k) (k_namePrefix k) (k_nameSuffix k) ls
+                         (mapo_or_empty (k_commonLabels k)) (mapo_or_empty (k_commonAnnotations k)) cms secs go
+                         (map (fun r => Replica.mkReplica (r_name r) (F (r_count r))) (k_replicas k))
+                         (map to_pimage (k_images k)) ps)
+      | _, _, _, _, _ => None
+      end
+    else None.
 
 Lemma opt_all_app {A B} (f : A -> option B) l1 l2 ys1 ys2 :
   opt_all f l1 = Some ys1 -> opt_all f l2 = Some ys2 -> opt_all f (l1 ++ l2) = Some (ys1 ++ ys2).
@@ -63,47 +80,47 @@ Proof.
     injection H1 as H1. subst. rewrite (IH ys eq_refl H2). reflexivity.
 Qed.
 
-(* the tie: on the pipeline's directives, FixKustomizationPreMarshalling IS the respelling whose
-   build-invariance the pipeline model proves *)
-Lemma to_pdirs_fix readable k k' d :
-  to_pdirs k = Some d -> fix_premarshal readable k = Ok k' -> to_pdirs k' = Some (respell d).
-Proof.
-  unfold to_pdirs. intros Hd Hf.
-  destruct (only_pipe_directives k) eqn:Ho; [|discriminate].
-  destruct (opt_all to_label_dir (k_labels k)) as [ls|] eqn:El; [|discriminate].
-  destruct (opt_all to_pgen (k_configMapGenerator k)) as [cms|] eqn:Ec; [|discriminate].
-  destruct (opt_all to_pgen (k_secretGenerator k)) as [secs|] eqn:Es; [|discriminate].
-  destruct (to_pgopts (k_generatorOptions k)) as [go|] eqn:Eg; [|discriminate].
-  injection Hd as Hd. subst d.
-  unfold only_pipe_directives in Ho.
-  repeat (apply andb_prop in Ho; destruct Ho as [Ho ?]).
-  destruct (k_patchesSM k) eqn:P1; [|discriminate]. destruct (k_patchesJson k) eqn:P2; [|discriminate].
-  destruct (k_patches k) eqn:P3; [|discriminate].
-  unfold fix_premarshal in Hf. cbv zeta in Hf. rewrite P1, P2, P3 in Hf. cbn [map app] in Hf.
-  unfold respell. cbn [pd_common_labels pd_ns pd_prefix pd_suffix pd_labels pd_common_annos pd_cmgens pd_secgens pd_genopts].
-  assert (forall v cl, only_pipe_directives
-            (set_commonLabels cl (set_labels v (set_patchesSM [] (set_patchesJson [] (set_patches [] k))))) = true) as O2.
-  { intros v cl. unfold only_pipe_directives. cbn.
-    repeat match goal with HH : nilb _ = true |- _ => rewrite HH; clear HH end. reflexivity. }
-  assert (only_pipe_directives (set_patchesSM [] (set_patchesJson [] (set_patches [] k))) = true) as O1.
-  { unfold only_pipe_directives. cbn.
-    repeat match goal with HH : nilb _ = true |- _ => rewrite HH; clear HH end. reflexivity. }
-  destruct (k_commonLabels k) as [[|p t]|] eqn:Ecl; cbn [label_from_common mapo_or_empty] in *.
-  - (* Some [] *) injection Hf as Hf. subst k'. rewrite O1.
-    cbn -[opt_all to_label_dir to_pgen to_pgopts]. rewrite Ecl, El, Ec, Es, Eg. reflexivity.
-  - (* Some (p :: t) *)
-    cbn [l_pairs] in Hf.
-    destruct (labels_conflict (k_labels k) (p :: t)); [discriminate|]. injection Hf as Hf. subst k'.
-    rewrite O2. cbn -[opt_all to_label_dir to_pgen to_pgopts].
-    match goal with
-    | |- context [opt_all to_label_dir ?l] =>
-        assert (opt_all to_label_dir l = Some (ls ++ [Labels.mkLD (p :: t) true false []])) as E
-            by (apply opt_all_app; [exact El|reflexivity])
-    end.
-    rewrite E, Ec, Es, Eg. reflexivity.
-  - (* None *) injection Hf as Hf. subst k'. rewrite O1.
-    cbn -[opt_all to_label_dir to_pgen to_pgopts]. rewrite Ecl, El, Ec, Es, Eg. reflexivity.
-Qed.
+  (* the tie: on the pipeline's directives, FixKustomizationPreMarshalling IS the respelling whose
+     build-invariance the pipeline model proves *)
+  Lemma to_pdirs_fix readable k k' d :
+    to_pdirs k = Some d -> fix_premarshal readable k = Ok k' -> to_pdirs k' = Some (respell d).
+  Proof.
+    unfold to_pdirs. intros Hd Hf.
+    destruct (only_pipe_directives k) eqn:Ho; [|discriminate].
+    destruct (opt_all to_label_dir (k_labels k)) as [ls|] eqn:El; [|discriminate].
+    destruct (opt_all to_pgen (k_configMapGenerator k)) as [cms|] eqn:Ec; [|discriminate].
+    destruct (opt_all to_pgen (k_secretGenerator k)) as [secs|] eqn:Es; [|discriminate].
+    destruct (to_pgopts (k_generatorOptions k)) as [go|] eqn:Eg; [|discriminate].
+    destruct (opt_all L (k_patches k)) as [ps|] eqn:Ep; [|discriminate].
+    injection Hd as Hd. subst d.
+    pose proof Ho as Ho'. unfold only_pipe_directives in Ho.
+    repeat (apply andb_prop in Ho; destruct Ho as [Ho ?]).
+    destruct (k_patchesSM k) eqn:P1; [|discriminate]. destruct (k_patchesJson k) eqn:P2; [|discriminate].
+    unfold fix_premarshal in Hf. cbv zeta in Hf. rewrite P1, P2 in Hf. cbn [map] in Hf. rewrite !app_nil_r in Hf.
+    unfold respell. cbn [pd_common_labels pd_ns pd_prefix pd_suffix pd_labels pd_common_annos pd_cmgens pd_secgens pd_genopts pd_replicas pd_images pd_patches].
+    assert (forall v cl, only_pipe_directives
+              (set_commonLabels cl (set_labels v (set_patchesSM [] (set_patchesJson [] (set_patches (k_patches k) k))))) = true) as O2.
+    { intros v cl. unfold only_pipe_directives. cbn.
+      repeat match goal with HH : nilb _ = true |- _ => rewrite HH; clear HH end. reflexivity. }
+    assert (only_pipe_directives (set_patchesSM [] (set_patchesJson [] (set_patches (k_patches k) k))) = true) as O1.
+    { unfold only_pipe_directives. cbn.
+      repeat match goal with HH : nilb _ = true |- _ => rewrite HH; clear HH end. reflexivity. }
+    destruct (k_commonLabels k) as [[|p t]|] eqn:Ecl; cbn [label_from_common mapo_or_empty] in *.
+    - injection Hf as Hf. subst k'. rewrite O1.
+      cbn -[opt_all to_label_dir to_pgen to_pgopts]. rewrite Ecl, El, Ec, Es, Eg, Ep. reflexivity.
+    - cbn [l_pairs] in Hf.
+      destruct (labels_conflict (k_labels k) (p :: t)); [discriminate|]. injection Hf as Hf. subst k'.
+      rewrite O2. cbn -[opt_all to_label_dir to_pgen to_pgopts].
+      match goal with
+      | |- context [opt_all to_label_dir ?l] =>
+          assert (opt_all to_label_dir l = Some (ls ++ [Labels.mkLD (p :: t) true false []])) as E
+              by (apply opt_all_app; [exact El|reflexivity])
+      end.
+      rewrite E, Ec, Es, Eg, Ep. reflexivity.
+    - injection Hf as Hf. subst k'. rewrite O1.
+      cbn -[opt_all to_label_dir to_pgen to_pgopts]. rewrite Ecl, El, Ec, Es, Eg, Ep. reflexivity.
+  Qed.
+End Project.
 
 (* respelling ONE layer (the hand rewrite labels ++ [{pairs: commonLabels, includeSelectors: true}]) never
    changes the build — unconditionally, i.e. also when a labels entry and commonLabels define the same key
@@ -120,13 +137,28 @@ Proof.
 Qed.
 
 (* `kustomize edit fix` on a layer preserves the build, for every tree below it *)
-Theorem fix_preserves_build nonstr o n ents readable k k' d :
-  to_pdirs k = Some d -> fix_premarshal readable k = Ok k' ->
-  exists d', to_pdirs k' = Some d' /\
+Theorem fix_preserves_build L F nonstr o n ents readable k k' d :
+  to_pdirs L F k = Some d -> fix_premarshal readable k = Ok k' ->
+  exists d', to_pdirs L F k' = Some d' /\
              build nonstr o (PDir n d' ents) = build nonstr o (PDir n d ents).
 Proof.
-  intros Hd Hf. exists (respell d). split; [exact (to_pdirs_fix readable k k' d Hd Hf)|].
+  intros Hd Hf. exists (respell d). split; [exact (to_pdirs_fix L F readable k k' d Hd Hf)|].
   apply build_respell_layer.
+Qed.
+
+(* why patchesStrategicMerge must be empty in the guard: the finding PIPE/patch-spelling.  A targeted `patches:`
+   entry goes through resWrangler.ApplySmPatch — the path the deprecated patchesStrategicMerge takes as well —
+   which rewrites the patch's labels/annotations through map[string]string; the target-less entry that `edit
+   fix` writes applies the document as written.  On w-pipe's witness tree the two builds differ. *)
+Lemma fix_patch_spelling_refuted :
+  Res.PipelinePatchProofs.labels_of
+    (build (fun s => String.eqb s "1") PSortNone (Res.PipelinePatchProofs.spelling_tree None)) <>
+  Res.PipelinePatchProofs.labels_of
+    (build (fun s => String.eqb s "1") PSortNone
+           (Res.PipelinePatchProofs.spelling_tree (Some Res.PipelinePatchProofs.kind_only))).
+Proof.
+  rewrite Res.PipelinePatchProofs.spelling_without_target, Res.PipelinePatchProofs.spelling_with_target.
+  discriminate.
 Qed.
 
 (* non-vacuity: a record in the domain on which fix really rewrites *)
@@ -135,9 +167,26 @@ Example fix_pipe_example :
              (Kust.set_labels [mkLabel (Some [("tier", "y")]) false true None]
              (Kust.set_configMapGenerator [mkGa "" "cm" "" ["a=b"] [] [] "" None ""]
              (Kust.set_namespace "prod" empty_kust))) in
-  exists d k', to_pdirs k = Some d /\ fix_premarshal (fun _ => false) k = Ok k' /\
-               to_pdirs k' = Some (respell d) /\ respell d <> d.
+  forall L F, exists d k', to_pdirs L F k = Some d /\ fix_premarshal (fun _ => false) k = Ok k' /\
+               to_pdirs L F k' = Some (respell d) /\ respell d <> d.
 Proof.
-  cbn zeta. eexists. eexists. split; [vm_compute; reflexivity|]. split; [vm_compute; reflexivity|].
-  split; [vm_compute; reflexivity|]. vm_compute. discriminate.
+  cbn zeta. intros L F. eexists. eexists. split; [cbv; reflexivity|]. split; [vm_compute; reflexivity|].
+  split; [cbv; reflexivity|]. cbv. discriminate.
+Qed.
+
+(* non-vacuity with the directives added in this round: a layer with a `patches:` entry, images and replicas *)
+Example fix_pipe_example_patches :
+  let k := Kust.set_commonLabels (Some [("app", "x")])
+             (Kust.set_patches [mkPatch "p.yaml" "" None None]
+             (Kust.set_images [Kust.mkImage "nginx" "" "" "1.2" ""]
+             (Kust.set_replicas [Kust.mkReplica "web" 3%Z] empty_kust))) in
+  let L := fun _ : patch => Some (mkPPatch [Map [("kind", Scalar TNone SPlain "Deployment")]] None []) in
+  let F := fun _ : Z => "3" in
+  exists d k', to_pdirs L F k = Some d /\ fix_premarshal (fun _ => true) k = Ok k' /\
+               to_pdirs L F k' = Some (respell d) /\
+               List.length (pd_patches d) = 1 /\ List.length (pd_images d) = 1 /\ List.length (pd_replicas d) = 1 /\
+               respell d <> d.
+Proof.
+  cbn zeta. eexists. eexists. split; [cbv; reflexivity|]. split; [vm_compute; reflexivity|].
+  split; [cbv; reflexivity|]. repeat split; cbv; try reflexivity. discriminate.
 Qed.
